@@ -244,8 +244,99 @@ def systematic_cases():
                 yield {"combo": combo, "cons": cons, "env": [["drain"], op, ["drain"]]}
 
 
+def directed_chooser(intents):
+    """script of *intents* resolved online against the live state (deterministic): ("op", [...]) a concrete op;
+    ("until", phase, limit) = `step` until some consumer is in that phase; ("fault", kind, phase, cls) = that fault on
+    the lowest-numbered consumer currently in that phase (for throw/intr: a Python task)"""
+    todo = list(intents)
+    budget = [0]
+
+    def choose(run):
+        while todo:
+            it = todo[0]
+            if it[0] == "op":
+                todo.pop(0)
+                return list(it[1])
+            if it[0] == "until":
+                hit = any(run.phase_tag(t) == it[1] for t in run.state if not run.tasks[t].done())
+                budget[0] += 1
+                if hit or budget[0] > it[2]:
+                    todo.pop(0)
+                    budget[0] = 0
+                    continue
+                return ["step"]
+            if it[0] == "fault":
+                todo.pop(0)
+                kind, phase, cls = it[1], it[2], it[3]
+                cands = [t for t in sorted(run.state) if not run.tasks[t].done() and run.phase_tag(t) == phase
+                         and (kind == "cancel" or run.cons[t]["py"])]
+                if not cands:
+                    continue
+                return ["cancel", cands[0]] if kind == "cancel" else [kind, cands[0], cls]
+            raise ValueError(it)
+        return None
+    return choose
+
+
+def directed_cases():
+    """the deterministic grid: one or two fixed instances of every directed situation, on every run whatever the
+    seed (besides `systematic_cases`: notify order / notify_all over every lock kind).  -> (case, chooser | None)"""
+    py3 = [{"pri": 0, "py": True, "wf": False, "retry": False, "rounds": 1} for _ in range(3)]
+    mixed = [{"pri": 1, "py": False, "wf": False, "retry": False, "rounds": 1},
+             {"pri": 0, "py": True, "wf": False, "retry": False, "rounds": 1},
+             {"pri": -1, "py": False, "wf": True, "retry": False, "rounds": 1},
+             {"pri": 0, "py": True, "wf": True, "retry": False, "rounds": 1}]
+    for combo in COMBOS:
+        for cons in (py3, mixed):
+            base = {"combo": combo, "cons": cons, "env": []}
+            for kind, cls in (("cancel", "I"), ("throw", "I"), ("intr", "T"), ("throw", "F"), ("intr", "F")):
+                # a fault while queued to re-acquire (the producer holds the lock across an await)
+                yield dict(base), [("op", ["drain"]), ("op", ["put", 2, 1]), ("until", "while-reacquiring", 12),
+                                   ("fault", kind, "while-reacquiring", cls), ("op", ["drain"])]
+                # a notified waiter faulted before it resumes: the notification must be passed on
+                yield dict(base), [("op", ["drain"]), ("op", ["put", 1, 1]), ("until", "after-notification", 12),
+                                   ("fault", kind, "after-notification", cls), ("op", ["drain"]),
+                                   ("op", ["put", 1, 0]), ("op", ["drain"])]
+                # a fault while waiting, un-notified
+                yield dict(base), [("op", ["drain"]), ("fault", kind, "while-waiting", cls), ("op", ["drain"]),
+                                   ("op", ["put", 2, 0]), ("op", ["drain"])]
+            # double fault: one while waiting / after notification, a second one while re-acquiring
+            for k1, k2, c1, c2 in (("throw", "cancel", "I", "I"), ("cancel", "throw", "I", "T"), ("intr", "throw", "T", "F")):
+                yield dict(base), [("op", ["drain"]), ("op", ["put", 2, 1]), ("until", "after-notification", 12),
+                                   ("fault", k1, "after-notification", c1), ("until", "while-reacquiring", 12),
+                                   ("fault", k2, "while-reacquiring", c2), ("op", ["step"]),
+                                   ("fault", k2, "while-reacquiring", c2), ("op", ["drain"])]
+    # wait_for with a priority change while inside it: both waiters are woken without a token and wait again; the
+    # next notify(1) must go by the priorities they had when they began *that* wait
+    for combo in ("pc-plock", "pc-alock"):
+        for p_new, other in ((-2, 0), (3, 1)):
+            cons = [{"pri": 2 if p_new < 0 else -1, "py": False, "wf": True, "retry": False, "rounds": 1},
+                    {"pri": other, "py": False, "wf": False, "retry": False, "rounds": 1}]
+            yield {"combo": combo, "cons": cons, "env": [["drain"], ["setpri", 0, p_new], ["poke", 2, 0], ["drain"],
+                                                           ["put", 1, 0], ["drain"]]}, None
+
+
 def run(ctx):
     rng = ctx.rng
+    grid = []
+    for case, intents in directed_cases():
+        if intents is None:
+            grid.append((case, execute(case)))
+        else:
+            r = execute(case, directed_chooser(intents))
+            case["env"] = r.recorded
+            grid.append((case, r))
+    explore(ctx, grid, "directed: ")
+    # a fixed block of generated cases that does not depend on VERIF_SEED
+    import random as _random
+    frng = _random.Random("C14 fixed block")
+    fixed = []
+    for _ in range(400):
+        case = gen_case(frng)
+        r = execute(case, make_chooser(frng, frng.randint(8, 45)))
+        case["env"] = r.recorded
+        fixed.append((case, r))
+    explore(ctx, fixed, "fixed block: ")
     runs = [(c, execute(c)) for c in corpus_cases()]
     explore(ctx, runs, "corpus: ")
     explore(ctx, [(c, execute(c)) for c in systematic_cases()], "systematic: ")
